@@ -4,6 +4,8 @@ are handled symbolically (models.py).  Functions are located by their code objec
 module source that is re-read from the working tree on every run."""
 import ast
 import builtins
+import queue
+import threading
 import inspect
 import linecache
 import operator
@@ -217,42 +219,95 @@ class IFunc(object):
         return "<IFunc %s>" % self.__name__
 
 
+class _GenClose(EngineSignal):
+    """raised at a suspended yield when the generator is closed"""
+
+
 class IGen(object):
-    """Interpreted generator: the body runs, entirely, at first demand (stated deviation:
-    no interleaving with the consumer); yields are buffered."""
+    """Interpreted generator with real suspension semantics: the body runs in its own thread;
+    exactly one of consumer / producer runs at any time (strict hand-off), so execution is
+    deterministic and effects interleave with the consumer as in CPython."""
 
     def __init__(self, interp, thunk, name):
         self.interp, self.thunk, self.name = interp, thunk, name
-        self.buf = None
-        self.pos = 0
-        self.exc = None
+        self.state = "new"            # new | suspended | running | done
+        self.to_consumer = queue.Queue(1)
+        self.to_producer = queue.Queue(1)
+        self.thread = None
+        self.ctx = Ctx.current
+        if self.ctx is not None:
+            self.ctx.generators.append(self)
 
-    def _force(self):
-        if self.buf is None:
-            self.buf = []
+    # ---- producer side (called from the generator thread)
+    def _body(self):
+        try:
+            msg = self.to_producer.get()
+            if msg == "close":
+                self.to_consumer.put(("return", None))
+                return
+            saved = self.interp.depth
+            self.interp.depth = 0
             try:
-                self.thunk(self.buf)
-            except EngineSignal:
-                raise
-            except Exception as e:
-                self.exc = e
+                self.thunk(self)
+                out = ("return", None)
+            except _GenClose:
+                out = ("return", None)
+            except BaseException as e:      # python exceptions and engine signals travel to the consumer
+                out = ("raise", e)
+            finally:
+                self.interp.depth = saved
+            self.to_consumer.put(out)
+        except BaseException as e:          # pragma: no cover
+            self.to_consumer.put(("raise", e))
 
+    def produce(self, value):
+        """called by e_Yield inside the generator thread"""
+        self.to_consumer.put(("yield", value))
+        msg = self.to_producer.get()
+        if msg == "close":
+            raise _GenClose()
+        return None
+
+    # ---- consumer side
     def __iter__(self):
         return self
 
-    def __next__(self):
-        self._force()
-        if self.pos < len(self.buf):
-            v = self.buf[self.pos]
-            self.pos += 1
-            return v
-        if self.exc is not None:
-            e, self.exc = self.exc, None
-            raise e
+    def _resume(self, msg):
+        if self.state == "new":
+            self.thread = threading.Thread(target=self._body, name="igen-" + str(self.name), daemon=True)
+            self.thread.start()
+        self.state = "running"
+        depth = self.interp.depth
+        self.to_producer.put(msg)
+        kind, val = self.to_consumer.get()
+        self.interp.depth = depth
+        if kind == "yield":
+            self.state = "suspended"
+            return val
+        self.state = "done"
+        if kind == "raise":
+            raise val
         raise StopIteration
 
+    def __next__(self):
+        if self.state == "done":
+            raise StopIteration
+        if self.state == "running":
+            raise ValueError("generator already executing")
+        return self._resume("next")
+
     def close(self):
-        self.buf, self.pos = [], 0
+        if self.state == "new":
+            self.state = "done"
+            return
+        if self.state == "suspended":
+            try:
+                self._resume("close")
+            except StopIteration:
+                pass
+            except _GenClose:
+                pass
+        self.state = "done"
 
 
 _BINOPS = {
@@ -287,6 +342,9 @@ class Interp(object):
         self.unroll_limit = 64
         self.call_log = []       # qualnames of real functions interpreted (evidence)
         self.native_ok = set()   # extra callables that may always be called natively
+        # progress output is dropped by the symbolic semantics (DESIGN.md section 7)
+        self.contracts[sys.stderr.write] = lambda interp, a, k: None
+        self.contracts[sys.stderr.flush] = lambda interp, a, k: None
 
     # ------------------------------------------------------------------ helpers
     @property
@@ -400,8 +458,9 @@ class Interp(object):
         env = Env(local_names(node), parent_env, globals_, func=node)
         env.vars.update(bound)
         if is_generator_node(node):
-            def thunk(buf, env=env, node=node):
-                env.vars["$yield"] = buf
+            def thunk(gen, env=env, node=node):
+                env.vars["$gen"] = gen
+                env.vars.setdefault("$yield", [])
                 self.run_body(node, env)
             return IGen(self, thunk, name)
         return self.run_body(node, env)
@@ -991,12 +1050,12 @@ class Interp(object):
     def e_Yield(self, e, env):
         v = self.eval(e.value, env) if e.value is not None else None
         fenv = env
-        while fenv is not None and "$yield" not in fenv.vars:
+        while fenv is not None and "$gen" not in fenv.vars:
             fenv = fenv.parent
         if fenv is None:
             raise Undecided("yield outside generator")
-        fenv.vars["$yield"].append(v)
-        return None
+        fenv.vars["$yield"].append(v)         # ghost output sequence (everything yielded so far)
+        return fenv.vars["$gen"].produce(v)
 
     def e_Starred(self, e, env):
         raise Undecided("starred expression")
